@@ -28,6 +28,8 @@ ASSUMPTIONS = [
 ]
 SHARDS = {"quick": 8, "thorough": 16}
 MIN_REACH = {
+    "samplers_whose_table_is_named_by_a_path_object": {"quick": 15, "thorough": 250},
+    "samplers_made_by_the_label_decorator": {"quick": 20, "thorough": 300},
     "runs_of_more_than_a_thousand_samples_through_a_pool": {"quick": 2, "thorough": 30},
     "samplers_whose_choices_mix_numbers_and_text": {"quick": 2, "thorough": 80},
     "runs_whose_outputs_are_all_nan": {"quick": 8, "thorough": 150},
@@ -136,7 +138,19 @@ def run_case(ctx, case):
         dc = {}
         for a in args:
             dc[a] = list(POOLS[a]) if case["default_kind"] == "lists" or a != "x" else LoggingGen(rng, POOLS[a], draws.setdefault(a, []))
-        return xyzpy.Sampler(runner, data_name=data_name, default_combos=dc or None, engine=engine, **skw)
+        dn = data_name
+        if dn is not None and len(case["runs"]) % 3 == 1:
+            # the table is named by a pathlib.Path, in every session of the history
+            import pathlib
+            dn = pathlib.Path(dn)
+            ctx.count("samplers_whose_table_is_named_by_a_path_object")
+        if not skw and dn is not None and len(case["runs"]) % 2 == 1:
+            # the Sampler is made by the decorator spelling: @label(var_names, sampler=<name>)
+            smp = xyzpy.label(var_names, constants=dict(base_constants) or None, sampler=dn, engine=engine)(fn)
+            smp.default_combos = dict(dc)
+            ctx.count("samplers_made_by_the_label_decorator")
+            return smp
+        return xyzpy.Sampler(runner, data_name=dn, default_combos=dc or None, engine=engine, **skw)
 
     draws = {}
     s = None
